@@ -188,7 +188,7 @@ def _loop_facts(f, loop):
 
 
 def rule_r4_multirecordable(ck, prog, cls='sdk::trace::MultiRecordable', base='sdk::trace::Recordable', rule='C04.R4',
-                            container='recordables_'):
+                            container='recordables_', allow_child_null_check=False):
     rec = prog.record(cls)
     brec = prog.record(base)
     vkeys = {m['key']: m for m in brec['methods'] if m.get('virtual') and m.get('kind') != 'dtor'}
@@ -223,6 +223,11 @@ def rule_r4_multirecordable(ck, prog, cls='sdk::trace::MultiRecordable', base='s
         while x in pm and pm[x] != loop['i']:
             x = pm[x]
             if f.nodes[x]['k'] in ('if', 'cond', 'SwitchStmt') or (f.nodes[x]['k'] == 'binop' and f.nodes[x]['op'] in ('&&', '||')):
+                if allow_child_null_check and f.nodes[x]['k'] == 'if':
+                    core, pol = norm_cond(f, f.nodes[x]['cnd'])
+                    if any(f.nodes[i]['k'] == 'ref' and f.nodes[i].get('id') == loop.get('var') for i in f.subtree(core)) and \
+                            not any(f.nodes[i]['k'] == 'call' and not strip_targs(f.nodes[i].get('c', '')).startswith('std::') for i in f.subtree(core)):
+                        continue   # `if (child)` : a null child has nothing to forward to
                 cond_between = True
         if cond_between:
             ck.violation(rule, f, site, call, 'the child call is conditional inside the fan-out loop: some children can be skipped')
@@ -479,7 +484,12 @@ def _borrowing(prog, t, depth=0, seen=None):
     for qn, r in prog.records.items():
         if qn in seen or len(qn) < 8:
             continue
-        if qn in t:
+        pos = t.find(qn)
+        # whole-name match only: not a prefix of a nested or longer name
+        while pos >= 0 and (t[pos + len(qn):pos + len(qn) + 1] in (':',) or t[pos + len(qn):pos + len(qn) + 1].isalnum() or t[pos + len(qn):pos + len(qn) + 1] == '_' or
+                            (pos > 0 and (t[pos - 1].isalnum() or t[pos - 1] in ':_'))):
+            pos = t.find(qn, pos + 1)
+        if pos >= 0:
             seen.add(qn)
             for fd in r['fields']:
                 w = _borrowing(prog, fd['t'], depth + 1, seen)
